@@ -62,7 +62,17 @@ where
     /// let _inner = writer.finish()?;
     /// # Ok::<(), io::Error>(())
     /// ```
-    pub fn finish(self) -> io::Result<W> {
+    pub fn finish(mut self) -> io::Result<W> {
+        // `GzEncoder::finish` does not retry when the underlying writer is interrupted and, as it
+        // consumes the encoder, cannot be called again. `GzEncoder::try_finish` can.
+        loop {
+            match self.inner.try_finish() {
+                Ok(()) => break,
+                Err(e) if e.kind() == io::ErrorKind::Interrupted => {}
+                Err(e) => return Err(e),
+            }
+        }
+
         self.inner.finish()
     }
 
